@@ -289,6 +289,24 @@ pub fn targeted_scenarios() -> Vec<&'static str> {
     ]
 }
 
+/// Four-thread scenarios whose schedule space is far beyond exhaustive exploration: two traversals entering a
+/// cycle from opposite ends while one writer per node queues in between (the shape a lock held across a
+/// recursion or an iteration step needs in order to deadlock behind writer-preferring locks), and readers of
+/// every kind against two writers.  Schedules are sampled at random (seeded); every call pair in them is clean
+/// on the reference tree.
+pub fn sampled_scenarios() -> Vec<&'static str> {
+    vec![
+        "n=2 init=[(0, 1), (1, 0)] | dfs(0) || dfs(1) || connect(0,0) || connect(1,1)",
+        "n=2 init=[(0, 1), (1, 0)] | walk(0) || walk(1) || connect(0,0) || connect(1,1)",
+        "n=2 init=[(0, 1), (1, 0)] | ord(0) || ord(1) || connect(0,0) || connect(1,1)",
+        "n=2 init=[(0, 1), (1, 0)] | pfs(0) || pfs(1) || connect(0,0) || connect(1,1)",
+        "n=2 init=[(0, 1), (1, 0), (0, 0), (1, 1)] | dfs(0) || ord(1) || disconnect(0,0) || disconnect(1,1)",
+        "n=3 init=[(0, 1), (1, 2), (2, 0)] | dfs(0) || dfs(1) || connect(2,2) || connect(0,0)",
+        "n=3 init=[(0, 1), (1, 2), (2, 0)] | ord(0) || pfs(1) || walk(2) || isolate(1)",
+        "n=3 init=[(0, 1), (1, 2), (2, 0)] | q_deg(0); q_conn(0,1) || dfs(2) || connect(0,0) || connect(1,1)",
+    ]
+}
+
 pub struct RunCfg {
     pub shapes: Vec<(Vec<usize>, usize)>, // (calls per thread, max init edges)
     pub budget: u64,
@@ -298,6 +316,8 @@ pub struct RunCfg {
     pub emit_known: bool,
     pub targeted: bool,
     pub targeted_budget: u64,
+    pub sampled_budget: u64,
+    pub seed: u64,
 }
 
 pub fn run<F: Flav>(pool: &Pool, rc: &RunCfg, rep: &mut Report)
@@ -416,6 +436,44 @@ where
             }
         }
     }
+    if rc.targeted && rc.sampled_budget > 0 {
+        let list = sampled_scenarios();
+        for (i, txt) in list.iter().enumerate() {
+            if (i as u64 + 5) % rc.nshards != rc.shard % rc.nshards.max(1) {
+                continue;
+            }
+            let Some(sc) = Scenario::parse(txt) else {
+                rep.inconclusive.push(format!("sampled scenario does not parse: {}", txt));
+                continue;
+            };
+            crate::core::watchdog::tick(|| format!("{} sampled {}", F::NAME, txt));
+            let seed = rc.seed.wrapping_mul(1_000_003).wrapping_add(i as u64);
+            let v = Verdict {
+                perm: explore_with::<F>(pool, &sc, Fairness::Permissive, rc.sampled_budget, Some(seed)),
+                wp: explore_with::<F>(pool, &sc, Fairness::WriterPreferring, rc.sampled_budget, Some(seed ^ 0x5555)),
+            };
+            rep.count("sampled_scenarios");
+            rep.add("evaluations", v.perm.schedules + v.wp.schedules);
+            rep.add("schedules", v.perm.schedules + v.wp.schedules);
+            rep.add("random_schedules", v.perm.schedules + v.wp.schedules);
+            rep.add("lock_steps_scheduled", v.perm.lock_steps + v.wp.lock_steps);
+            rep.add("sampled_distinct_final_outcomes", (v.perm.distinct_outcomes.max(v.wp.distinct_outcomes)) as u64);
+            rep.distinct(fnv_str(&format!("{}|sampled|{}", F::NAME, txt)));
+            if let Some(m) = v.perm.inconsistent.as_ref().or(v.wp.inconsistent.as_ref()) {
+                rep.inconclusive.push(format!("explorer lock table disagreed with the real lock in {}: {}", txt, m));
+                continue;
+            }
+            if v.failing() {
+                let key = finding_key::<F>(&sc, &v, &sc);
+                rep.violation(
+                    "C17",
+                    key,
+                    format!("{} (randomly sampled schedules, seed {})", describe::<F>(&sc, &v), seed),
+                    json!({"kind":"conc","prop":"C17","flavour":F::NAME,"scenario":sc.text(),"found_in":txt,"sampled":true,"seed":seed,"budget":rc.sampled_budget}),
+                );
+            }
+        }
+    }
 }
 
 pub fn replay<F: Flav>(pool: &Pool, v: &serde_json::Value) -> bool
@@ -426,6 +484,17 @@ where
         println!("cannot parse scenario");
         return false;
     };
+    if v["sampled"].as_bool() == Some(true) {
+        // the same random schedules again (same seed, same number)
+        let seed = v["seed"].as_u64().unwrap_or(1);
+        let budget = v["budget"].as_u64().unwrap_or(3000);
+        let vd = Verdict {
+            perm: explore_with::<F>(pool, &sc, Fairness::Permissive, budget, Some(seed)),
+            wp: explore_with::<F>(pool, &sc, Fairness::WriterPreferring, budget, Some(seed ^ 0x5555)),
+        };
+        println!("{}", describe::<F>(&sc, &vd));
+        return vd.failing();
+    }
     let mut ck = Checker {
         pool,
         budget: 200_000,
